@@ -43,6 +43,8 @@ impl<'a> ParseState<'a> {
         // because the caller can be sure that everything is fine.
 
         #[cfg(peginator_verif)]
+        crate::verif::tick();
+        #[cfg(peginator_verif)]
         assert!(
             self.partial_string.is_char_boundary(length),
             "peginator_verif: advance({length}) is not on a char boundary of the remaining input"
@@ -66,6 +68,8 @@ impl<'a> ParseState<'a> {
     /// Advance the parsing pointer n chars. Panics if length indexes into a character
     #[inline]
     pub fn advance_safe(self, length: usize) -> Self {
+        #[cfg(peginator_verif)]
+        crate::verif::tick();
         if length > self.partial_string.len() {
             // This should be optimized out in most cases
             panic!("String length overrun in advance()")
@@ -104,6 +108,8 @@ impl<'a> ParseState<'a> {
 
     #[inline]
     pub fn record_error(mut self, error: ParseError) -> Self {
+        #[cfg(peginator_verif)]
+        crate::verif::tick();
         match &mut self.farthest_error {
             Some(farthest_error) => {
                 if farthest_error.position <= error.position {
@@ -117,6 +123,8 @@ impl<'a> ParseState<'a> {
 
     #[inline]
     pub fn report_farthest_error(self) -> ParseError {
+        #[cfg(peginator_verif)]
+        crate::verif::tick();
         self.farthest_error.unwrap_or(ParseError {
             position: self.start_index,
             specifics: ParseErrorSpecifics::Other,
